@@ -16,6 +16,7 @@ package ggql
 
 import (
 	"io"
+	"strings"
 )
 
 // Arg is a GraphQL Arg or InputValue.
@@ -94,6 +95,14 @@ func (a *Arg) Resolve(field *Field, args map[string]interface{}) (result interfa
 		result = a.Type
 	case defaultValueStr:
 		result = a.Default
+		switch result.(type) {
+		case []interface{}, map[string]interface{}:
+			// A list or an object can only be given as it is written in SDL.
+			var b strings.Builder
+			if err = WriteSDLValue(&b, result); err == nil {
+				result = b.String()
+			}
+		}
 	}
 	return
 }
